@@ -6,6 +6,7 @@ toolchain go1.23.5
 
 require (
 	github.com/btcsuite/btcd v0.22.0-beta
+	github.com/gorilla/mux v1.8.0
 	github.com/trustbloc/logutil-go v1.0.0-rc1
 	github.com/trustbloc/sidetree-core-go v0.0.0
 	pgregory.net/rapid v1.3.0
